@@ -12,7 +12,6 @@
 //! prefixes depth first.
 
 use std::cell::Cell;
-use std::sync::mpsc::{channel, Sender};
 use std::sync::{Arc, Mutex};
 
 pub mod prelude {
@@ -87,65 +86,133 @@ fn workers() -> usize {
 }
 
 // ---------------------------------------------------------------------------------------------
-// Worker pool: persistent threads for one controlled execution, driven one job at a time
+// Worker pool: persistent threads for one controlled execution, driven one job at a time.
+//
+// Nested parallel regions (a chunk that itself enters a parallel region) are planned like any other region. A
+// thread that waits for a job it handed to another worker keeps serving its own queue meanwhile (like a rayon
+// worker that steals while it waits on a latch), so a nested chunk may run on any worker, including one that is
+// blocked further up the call chain; a chunk planned for the calling worker itself runs inline.
 
 type Job = Box<dyn FnOnce() + Send + 'static>;
 
-struct Pool {
-    senders: Vec<Sender<(Job, Sender<bool>)>>,
-    handles: Vec<std::thread::JoinHandle<()>>,
+struct Shared {
+    queues: Vec<std::collections::VecDeque<(u64, Job)>>,
+    done: std::collections::HashMap<u64, bool>,
+    next_id: u64,
+    shutdown: bool,
 }
 
-static POOL: Mutex<Option<Pool>> = Mutex::new(None);
+static SHARED: Mutex<Option<Shared>> = Mutex::new(None);
+static CV: std::sync::Condvar = std::sync::Condvar::new();
+static HANDLES: Mutex<Vec<std::thread::JoinHandle<()>>> = Mutex::new(Vec::new());
+
+thread_local! {
+    static WORKER_ID: Cell<Option<usize>> = const { Cell::new(None) };
+}
+
+fn finish_job(id: u64, job: Job) {
+    let ok = std::panic::catch_unwind(std::panic::AssertUnwindSafe(job)).is_ok();
+    let mut g = SHARED.lock().unwrap();
+    if let Some(s) = g.as_mut() {
+        s.done.insert(id, ok);
+    }
+    CV.notify_all();
+}
 
 fn start_pool(w: usize) {
-    let mut senders = vec![];
+    *SHARED.lock().unwrap() = Some(Shared { queues: (0..w).map(|_| Default::default()).collect(), done: Default::default(), next_id: 0, shutdown: false });
     let mut handles = vec![];
     for k in 0..w {
-        let (tx, rx) = channel::<(Job, Sender<bool>)>();
-        senders.push(tx);
         handles.push(
             std::thread::Builder::new()
                 .name(format!("shim-worker-{}", k))
                 .stack_size(16 << 20)
                 .spawn(move || {
                     ON_WORKER.with(|f| f.set(true));
-                    while let Ok((job, done)) = rx.recv() {
-                        let r = std::panic::catch_unwind(std::panic::AssertUnwindSafe(job));
-                        let _ = done.send(r.is_ok());
+                    WORKER_ID.with(|f| f.set(Some(k)));
+                    loop {
+                        let job = {
+                            let mut g = SHARED.lock().unwrap();
+                            loop {
+                                let Some(s) = g.as_mut() else { break None };
+                                if let Some(j) = s.queues[k].pop_front() {
+                                    break Some(j);
+                                }
+                                if s.shutdown {
+                                    break None;
+                                }
+                                g = CV.wait(g).unwrap();
+                            }
+                        };
+                        match job {
+                            None => return,
+                            Some((id, job)) => finish_job(id, job),
+                        }
                     }
                 })
                 .expect("spawn worker"),
         );
     }
-    *POOL.lock().unwrap() = Some(Pool { senders, handles });
+    *HANDLES.lock().unwrap() = handles;
 }
 
 fn stop_pool() {
-    let p = POOL.lock().unwrap().take();
-    if let Some(p) = p {
-        drop(p.senders);
-        for h in p.handles {
-            let _ = h.join();
-        }
+    if let Some(s) = SHARED.lock().unwrap().as_mut() {
+        s.shutdown = true;
     }
+    CV.notify_all();
+    let hs: Vec<_> = std::mem::take(&mut *HANDLES.lock().unwrap());
+    for h in hs {
+        let _ = h.join();
+    }
+    *SHARED.lock().unwrap() = None;
 }
 
 /// Run `job` on worker `w` and wait for it (the lifetime of the closure is erased: we block until it is done).
 fn run_on_worker<'a>(w: usize, job: Box<dyn FnOnce() + Send + 'a>) {
-    let tx = POOL.lock().unwrap().as_ref().and_then(|p| p.senders.get(w).cloned());
-    match tx {
-        None => job(),
-        Some(tx) => {
-            // SAFETY: we wait for completion below, so borrowed data outlives the job.
-            let job: Job = unsafe { std::mem::transmute::<Box<dyn FnOnce() + Send + 'a>, Job>(job) };
-            let (dtx, drx) = channel();
-            tx.send((job, dtx)).expect("worker alive");
-            let ok = drx.recv().expect("worker answers");
-            if !ok {
-                panic!("a task panicked on a shim worker thread");
+    let me = WORKER_ID.with(|f| f.get());
+    if me == Some(w) {
+        // planned for the calling worker: same thread, inline
+        return job();
+    }
+    // SAFETY: we wait for completion below, so borrowed data outlives the job.
+    let job: Job = unsafe { std::mem::transmute::<Box<dyn FnOnce() + Send + 'a>, Job>(job) };
+    let id = {
+        let mut g = SHARED.lock().unwrap();
+        match g.as_mut() {
+            Some(s) if w < s.queues.len() => {
+                let id = s.next_id;
+                s.next_id += 1;
+                s.queues[w].push_back((id, job));
+                id
+            }
+            _ => {
+                drop(g);
+                return job();
             }
         }
+    };
+    CV.notify_all();
+    loop {
+        let mut g = SHARED.lock().unwrap();
+        let mine = loop {
+            let s = g.as_mut().expect("pool alive while a job is pending");
+            if let Some(ok) = s.done.remove(&id) {
+                if !ok {
+                    drop(g);
+                    panic!("a task panicked on a shim worker thread");
+                }
+                return;
+            }
+            if let Some(k) = me {
+                if let Some(j) = s.queues[k].pop_front() {
+                    break j;
+                }
+            }
+            g = CV.wait(g).unwrap();
+        };
+        drop(g);
+        finish_job(mine.0, mine.1);
     }
 }
 
@@ -172,10 +239,6 @@ fn execute<'a, T: Send + 'a>(tasks: Vec<Box<dyn FnOnce() -> Vec<T> + Send + 'a>>
     let n = tasks.len();
     if n == 0 {
         return vec![];
-    }
-    let nested = ON_WORKER.with(|f| f.get());
-    if nested {
-        return tasks.into_iter().enumerate().map(|(i, t)| (i, t())).collect();
     }
     let chunks = plan_region(n);
     run_chunks(tasks, &chunks, |_c| (), |_, t| t())
@@ -417,7 +480,7 @@ impl<'a, T: Send + 'a> ParIter<'a, T> {
         if n == 0 {
             return ParIter { tasks: vec![], ordered: self.ordered };
         }
-        let plan = if ON_WORKER.with(|f| f.get()) { vec![Chunk { lo: 0, hi: n, worker: 0, index: 0 }] } else { plan_region(n) };
+        let plan = plan_region(n);
         let mut res = run_chunks(self.tasks, &plan, |_| init(), |s, t| t().into_iter().map(|x| f(s, x)).collect::<Vec<U>>());
         let ordered = self.ordered;
         if ordered {
@@ -432,7 +495,7 @@ impl<'a, T: Send + 'a> ParIter<'a, T> {
         if n == 0 {
             return ParIter { tasks: vec![], ordered: self.ordered };
         }
-        let plan = if ON_WORKER.with(|f| f.get()) { vec![Chunk { lo: 0, hi: n, worker: 0, index: 0 }] } else { plan_region(n) };
+        let plan = plan_region(n);
         // run chunk by chunk; accumulate per chunk
         let accs: Mutex<Vec<(usize, Option<A>)>> = Mutex::new(plan.iter().map(|c| (c.index, None)).collect());
         let res = run_chunks(
